@@ -379,7 +379,9 @@ def connect(chk, crate):
                     "Ok(socket) is reachable without the serial numbers having compared equal", "Ok only on the equal edge", f.sp(okbb))
         fr = f.reach_from(ft)
         rets = [(rb, e) for rb, e in f.ret_writes() if rb in fr]
-        chk.require(rets and all(f.classify_ret(e) == "err" for _, e in rets), "C09-c/wrong-device-rejected", "connect",
+        # (no successful return is reachable from the unequal edge - the reachability follows known Ok/Err values through
+        # `?`, so an `Err` built in an inlined helper and handed on by the caller's `?` counts as the failure it is)
+        chk.require(rets and all(f.classify_ret(e) in ("err", "propagate") for _, e in rets), "C09-c/wrong-device-rejected", "connect",
                     "a terminal with a different serial number does not make connect fail", "Err on the unequal edge", f.sp(ft))
         # device_id comes from the system-info reply of this connection
         chk.require(any(from_stream(x, ibb) for x in (a, b_)), "C09-c/serial-source", "connect",
